@@ -343,6 +343,11 @@ def run(ck):
             f = l.split()
             obs = "%s %s %s %s %s %s" % (f[1], f[2], f[3], f[4], B(godec(f[5])).coq(), B(godec(f[6])).coq())
         items.append(("D", "dcase %d %s %s %s %s" % (smv, B(data).coq(), B(k0).coq(), B(v0).coq(), obs), (sm, data.hex()[:160], len(data), k0.hex(), v0.hex(), l[:160])))
+    if ck.violations:
+        # the monitors already hold concrete failing inputs: the model comparison adds nothing, and evaluating the model on the
+        # outputs of a broken codec can be very slow (a corrupt length prefix makes it walk megabytes)
+        ck.cov["note_model_phase"] = "skipped: property monitors already reported violations with failing inputs"
+        return
     nsh = 16 if len(items) > 2000 else 4
     hdr = ("From Drummer.Model Require Import Base KVCodec KVCodecRun.\n"
            "Definition cases : list bool := [\n")
@@ -351,7 +356,7 @@ def run(ck):
     for si, shd in enumerate(shards):
         body = ";\n".join(t for (_, t, _) in shd)
         jobs.append(("c20s%d" % si, hdr + body + "\n].\nDefinition M := Eval vm_compute in false_ix cases.\nPrint M.\n"))
-    outs = ck.coq_eval_par(jobs, timeout=3000)
+    outs = ck.coq_eval_par(jobs, timeout=900)
     mism = []
     for si, (rc, out) in enumerate(outs):
         bad = parse_coq_list_of_nat(out, "M") if rc == 0 else None
